@@ -23,7 +23,7 @@ CLAIMED.update({
    cat="exploration", ref="DESIGN.md section 3, C18",
    technique="runtime differential monitor at process level: the anko binary built from /repo is run on every script (file mode with trailing arguments and -e mode) next to a library driver executing vm.Execute on the same source in an equally prepared environment; stdout, diagnostic line and exit status are compared",
    text="53 fixed scripts and PRNG template programs (unchanged, with a parse error injected at a random token, with a run error injected after k prints, reading args, importing bundled packages, unreadable paths, load() of missing/unparsable files at top level, in functions and in try, defined() on the script's own names); required: CLI stdout = library stdout plus exactly one diagnostic line iff the library returned an error; exit 0 iff no error, 4 on parse/run error, 2 for an unreadable file; args as seen by the script.",
-   note="Trusted: the library driver in a child process of the worker as reference. Not judged: stderr, the diagnostic's wording, interactive mode, -e \"\"; a mismatch must reproduce on a second run of both sides, else it is inconclusive."),
+   note="Trusted: the library driver in a child process of the worker as reference. Not judged: stderr, the diagnostic's wording, interactive mode; a mismatch must reproduce on a second run of both sides, else it is inconclusive."),
  "C19": dict(
    cat="exploration", ref="DESIGN.md section 3, C19",
    technique="runtime differential monitor of the core builtins against native Go (math/big progression for range, reflect/strconv/fmt for the others) plus an exhaustive structural invariant over the live package tables (runtime.FuncForPC name / reflect type identity per entry)",
@@ -111,6 +111,30 @@ CLAIMED.update({
    note="Trusted: astx reflection traversal. Synthetic nodes Walk fabricates are allowed; sibling order and multiplicity are not judged."),
 })
 ALL = ["C%02d" % i for i in range(1, 21)]
+
+# what the fourth seeding round added to each workload (appended to the level text)
+ROUND4 = {
+ "C01": "Round 4: unsigned and small-width operands in every operator and position, an exhaustive phase cross (every unsigned operand x 19 operators x every partner x 10 evaluation positions; every index from -1 to len+1 of twelve non-ASCII strings in every read/slice/store/loop form), parameter lists of up to 300 names, Go arrays handed in by the host, and storms: 4-16 go-started workers released together in a fresh child process, each evaluating 40-100 constructs of distinct shapes and sharing no script container.",
+ "C02": "Round 4: forwarding cores (dst <- src), recursion cores whose every function body is a single return, callback wrappers in which the host cancels between two invocations or waits for the cancel before invoking, cores inside the targets of a receive statement.",
+ "C03": "Round 4: decimal spellings with leading zeros; chained `in` generated bare (its right-grouped tree is a listed finding pinned by the baseline suite).",
+ "C04": "Round 4: assignment of a function to its own name, recursion through a rebound name, recursive defers.",
+ "C06": "Round 4: the switch observation over four and more case values in three clause shapes, all ordered pairs of views [i:j] of twelve backing arrays through seven provenances, and a phase conc in which 4-8 interpreters compare integers with exact non-integer-format numerals (each count must equal iterations x the sequential answer).",
+ "C07": "Round 4: nested assignment targets with probed operands (append at len, map entry, member, three levels), deferred spread calls with anonymous/member callees, single-return functions that fail, typed map literals, a Go function that panics on its goroutine while the spawner goes on evaluating operands.",
+ "C08": "Round 4: failing else-if conditions, post-less C-for, and direct programs for the truthiness of every Go number kind (incl. uintptr, float32, named numbers) and of typed containers / named strings handed in by the host, in if, else-if, for-cond and C-for conditions.",
+ "C09": "Round 4: recursive defers, single-return functions that fail, deferred spread calls with anonymous and member callees.",
+ "C10": "Round 4: struct shapes side by side (incl. host structs), literal nodes evaluated repeatedly through literal functions and loops, fields of a struct read out of an untyped element.",
+ "C11": "Round 4: phase selector (methods that take the name of a promoted field, embedded by value / pointer / two levels deep, through 14-21 holders, judged by Go's shallowest-depth selector rule) and phase slotarg (a slot operand passed in a call in which a later argument stores into that slot).",
+ "C12": "Round 4: external lookup objects that answer the zero reflect.Value without an error.",
+ "C13": "Round 4: long-history configurations under the controlled scheduler (32-170 operations per goroutine after up to 300 define/delete cycles) and a race-build phase owners (each goroutine's own symbols must read back exactly as it left them through Get, listings, Copy and DeepCopy; a foreign counter never goes back).",
+ "C14": "Round 4: prepared environments (DefineType of T/U/hm.T to one of 11 Go types, host float32 values, a barrier), one parsed tree run in 2-4 differently bound environments sequentially and concurrently, hundreds of error exits from script functions followed by deep recursions, deep recursions overlapping in 8 interpreters, float32 comparison loops under the race detector, Addr-store as an environment mutation, the literal nil and the value next to 'undefined symbol' as observation points.",
+ "C15": "Round 4: the type sub-language as parser input (every type form applied to every type form, dotted paths after every form, in every place of the grammar that takes a type, well- and ill-formed).",
+ "C16": "Round 4: named element types of the same kind (a send must convert), channel identity, launch forms whose channel arguments are read from typed slots that are overwritten right after, zip pipelines (a receive inside the body of a for-in over another channel), scenarios forin-body-recv, chan-from-slot, send-converts, forin-slot-operand, pointer-messages (the for-in pointee is a listed finding).",
+ "C17": "Round 4: 'returns that error' is checked as identity; phases deep and deepgen: every expression template nested in itself through each hole to depth 500-3000 under 23 statement contexts, block spines to depth 300-2000, operator chains and wide lists of 1000-3000 members.",
+ "C18": "Round 4: an empty -e source is judged like any other source.",
+ "C20": "Round 4: phases concur / concur-race (13 call sites whose callee is given by an expression, evaluated by 3-5 overlapping goroutines or interpreters each with its own closure), 26 param-* templates (the callee stores into its parameter, the caller reads the argument again), live for-in subjects, late-bound callees, boxed callback result lists, values of store expressions, parenthesised places.",
+}
+for _k, _v in ROUND4.items():
+    CLAIMED[_k]["text"] += " " + _v
 
 def main():
     checks = []
